@@ -627,19 +627,148 @@ theorem for_next_error_unchanged (m : MapD) (tn : Name)
   simp [forLoop, hn, hb, nextLoop, invoke_fn, Beh.run, Beh.runAt, CallRes.pass]
 
 
-/-- Bytecode-level iteration (`for`, unpacking, `match`: `MakeIterator` + `IterNext`) over an object
-with `@next` or `@iterator` is the public `make_iterator` iteration — same calls, same values, same
+/-- Bytecode-level iteration (`for`, unpacking: `MakeIterator` + `IterNext`) over an object with
+`@next` or `@iterator` is the public `make_iterator` iteration — same calls, same values, same
 errors — whatever `@iterator` returns (/repo bf483d2; before it, a list or map result failed in
-`for` only: finding F-C17-2) -/
+`for` only: finding F-C17-2). The one exception is the nesting limit (47b1155): `for` evaluates the
+operand's own `@iterator` outside the limit, so exactly at the limit the public path reports
+"too many nested @iterator calls" where `for` still succeeds. -/
 theorem for_equals_public_iteration (m : MapD)
-    (h : (m.metaGet .Next).isSome ∨ (m.metaGet .Iterator).isSome) :
+    (h : (m.metaGet .Next).isSome ∨ (m.metaGet .Iterator).isSome)
+    (hl : (toList (.map m)).res ≠ .err .tooNested) :
     forLoop (.map m) = toList (.map m) := by
   cases hn : m.metaGet .Next with
   | some p => simp [forLoop, toList, hn]
   | none =>
     cases hi : m.metaGet .Iterator with
-    | some p => simp [forLoop, toList, hn, hi]
     | none => simp [hn, hi] at h
+    | some p =>
+      obtain ⟨tag, mv⟩ := p
+      simp only [forLoop, toList, hn, hi] at hl ⊢
+      by_cases hc : mv = .nonCallable
+      · simp [hc]
+      · simp only [beq_iff_eq, hc, if_false] at hl ⊢
+        rcases hinv : invoke tag .Iterator mv m.av [] with ⟨t, r⟩
+        rw [hinv] at hl
+        cases r with
+        | ret v0 =>
+          simp only at hl ⊢
+          exact iterWalk_succ_of_ok _ _ 15 v0 t hl
+        | unimpl => rfl
+        | throw => rfl
+        | notCallable => rfl
+
+/-- Termination, for every object graph: a nesting walk with `l` levels evaluates `@iterator` at most
+`l` times and then either reports "too many nested @iterator calls" or iterates a leaf value -/
+theorem iteration_terminates (nx : IterStep) (leaf : List Ev → CallRes → Out) (l : Nat) (v : AV) (t : List Ev) :
+    ∃ t', t'.length ≤ l ∧
+      (iterWalk nx leaf l v t = ⟨t ++ t', .err .tooNested⟩ ∨
+       ∃ w, iterWalk nx leaf l v t = leaf (t ++ t') (.ret w)) :=
+  iterWalk_shape nx leaf l v t
+
+/-- … hence iterating an object with `@iterator` makes at most 16 `@iterator` calls through the public
+API (`iterator.*`, argument unpacking) and at most 17 in a `for` loop, whatever the calls return —
+including an object that returns itself and any longer cycle -/
+theorem iterator_calls_bounded (m : MapD) (tag : Name) (mv : MV)
+    (hn : m.metaGet .Next = none) (hi : m.metaGet .Iterator = some (tag, mv)) :
+    (∃ calls, calls.length ≤ 16 ∧
+      (toList (.map m) = ⟨calls, .err .tooNested⟩ ∨ ∃ r, toList (.map m) = iterateResult calls r ∨
+        toList (.map m) = ⟨calls, .err .type⟩)) ∧
+    (∃ calls, calls.length ≤ 17 ∧
+      (forLoop (.map m) = ⟨calls, .err .tooNested⟩ ∨ ∃ r, forLoop (.map m) = iterateResult calls r ∨
+        forLoop (.map m) = ⟨calls, .err .type⟩)) := by
+  have h1 := invoke_trace_le_one tag .Iterator mv m.av []
+  by_cases hc : mv = .nonCallable
+  · constructor
+    · exact ⟨[], by simp, Or.inr ⟨.unimpl, Or.inr (by simp [toList, hn, hi, hc])⟩⟩
+    · exact ⟨[], by simp, Or.inr ⟨.unimpl, Or.inr (by simp [forLoop, hn, hi, hc])⟩⟩
+  · rcases hinv : invoke tag .Iterator mv m.av [] with ⟨t, r⟩
+    rw [hinv] at h1
+    simp only at h1
+    constructor
+    · simp only [toList, hn, hi, beq_iff_eq, hc, if_false, hinv]
+      cases r with
+      | ret v0 =>
+        obtain ⟨t', hl, hs⟩ := iterWalk_shape (nestStep m.av (t.headD default) v0) iterateResult 15 v0 t
+        refine ⟨t ++ t', by simp [nestingLimit] at *; omega, ?_⟩
+        rcases hs with hs | ⟨w, hs⟩
+        · exact Or.inl (by simpa [nestingLimit] using hs)
+        · exact Or.inr ⟨.ret w, Or.inl (by simpa [nestingLimit] using hs)⟩
+      | unimpl => exact ⟨t, by omega, Or.inr ⟨.unimpl, Or.inl (by simp [iterateResult])⟩⟩
+      | throw => exact ⟨t, by omega, Or.inr ⟨.throw, Or.inl (by simp [iterateResult])⟩⟩
+      | notCallable => exact ⟨t, by omega, Or.inr ⟨.notCallable, Or.inl (by simp [iterateResult])⟩⟩
+    · simp only [forLoop, hn, hi, beq_iff_eq, hc, if_false, hinv]
+      cases r with
+      | ret v0 =>
+        obtain ⟨t', hl, hs⟩ := iterWalk_shape (nestStep m.av (t.headD default) v0) iterateResult 16 v0 t
+        refine ⟨t ++ t', by simp at *; omega, ?_⟩
+        rcases hs with hs | ⟨w, hs⟩
+        · exact Or.inl (by simpa [nestingLimit] using hs)
+        · exact Or.inr ⟨.ret w, Or.inl (by simpa [nestingLimit] using hs)⟩
+      | unimpl => exact ⟨t, by omega, Or.inr ⟨.unimpl, Or.inl (by simp [iterateResult])⟩⟩
+      | throw => exact ⟨t, by omega, Or.inr ⟨.throw, Or.inl (by simp [iterateResult])⟩⟩
+      | notCallable => exact ⟨t, by omega, Or.inr ⟨.notCallable, Or.inl (by simp [iterateResult])⟩⟩
+
+/-- an object whose `@iterator` returns the object itself: exactly 16 calls through the public API,
+17 in a `for` loop, then the nesting error (no unbounded recursion) -/
+theorem self_returning_iterator (m : MapD) (ti : Name)
+    (hn : m.metaGet .Next = none) (hi : m.metaGet .Iterator = some (ti, .fn (.ret .self))) :
+    let ev : Ev := ⟨ti, .mk .Iterator, m.av, []⟩
+    toList (.map m) = ⟨List.replicate 16 ev, .err .tooNested⟩ ∧
+    forLoop (.map m) = ⟨List.replicate 17 ev, .err .tooNested⟩ := by
+  intro ev
+  have hstep : nestStep m.av ev m.av m.av = some (ev, m.av) := by simp [nestStep, MapD.av]
+  constructor
+  · simp only [toList, hn, hi, invoke_fn, Beh.run, Beh.runAt, RV.toAV, nestingLimit]
+    simp only [show (MV.fn (Beh.ret RV.self) == MV.nonCallable) = false from rfl, Bool.false_eq_true, if_false,
+      List.headD_cons]
+    rw [iterWalk_cycle _ _ m.av ev hstep]
+    simp [List.replicate_succ, ev]
+  · simp only [forLoop, hn, hi, invoke_fn, Beh.run, Beh.runAt, RV.toAV, nestingLimit]
+    simp only [show (MV.fn (Beh.ret RV.self) == MV.nonCallable) = false from rfl, Bool.false_eq_true, if_false,
+      List.headD_cons]
+    rw [iterWalk_cycle _ _ m.av ev hstep]
+    simp [List.replicate_succ, ev]
+
+/-- a finite nest of `d` further objects around a list, within the limit: every `@iterator` of the
+nest is evaluated once, outermost first, and the iteration is the iteration of the innermost list —
+for the public API when the total depth `d + 1 ≤ 16`, in a `for` loop when `d + 1 ≤ 17` -/
+theorem nest_within_limit (m : MapD) (ti : Name) (d : Nat) (hd : 1 ≤ d)
+    (hn : m.metaGet .Next = none) (hi : m.metaGet .Iterator = some (ti, .fn (.ret (.nest d .lst)))) :
+    let ev : Ev := ⟨ti, .mk .Iterator, m.av, []⟩
+    (d + 1 ≤ 16 → toList (.map m) = ⟨ev :: nestEvents 1 d d .lst, .ok (.lst [20, 21])⟩) ∧
+    (d + 1 ≤ 17 → forLoop (.map m) = ⟨ev :: nestEvents 1 d d .lst, .ok (.lst [20, 21])⟩) := by
+  intro ev
+  have hd0 : ¬ d = 0 := by omega
+  have hroot : ∀ xs, m.av ≠ .lst xs := by intro xs; simp [MapD.av]
+  obtain ⟨k, rfl⟩ : ∃ k, d = k + 1 := ⟨d - 1, by omega⟩
+  constructor
+  · intro hle
+    simp only [toList, hn, hi, invoke_fn, Beh.run, Beh.runAt, RV.toAV, nestingLimit, hd0, if_false]
+    simp only [show (MV.fn (Beh.ret (RV.nest (k + 1) NestFin.lst)) == MV.nonCallable) = false from rfl,
+      Bool.false_eq_true, if_false, List.headD_cons]
+    rw [iterWalk_nest m.av ev _ iterateResult (k + 1) hroot k 1 15 [ev] (by omega) (by omega)]
+    simp [iterateResult, ev]
+  · intro hle
+    simp only [forLoop, hn, hi, invoke_fn, Beh.run, Beh.runAt, RV.toAV, nestingLimit, hd0, if_false]
+    simp only [show (MV.fn (Beh.ret (RV.nest (k + 1) NestFin.lst)) == MV.nonCallable) = false from rfl,
+      Bool.false_eq_true, if_false, List.headD_cons]
+    rw [iterWalk_nest m.av ev _ iterateResult (k + 1) hroot k 1 16 [ev] (by omega) (by omega)]
+    simp [iterateResult, ev]
+
+/-- the boundary: total depth 17 (`d = 16`) is too deep for the public API but still fine in `for`;
+depth 18 is too deep for both; a 2-cycle ends in the nesting error like a self-cycle -/
+theorem nest_at_limit :
+    let m (d : Nat) (fin : NestFin) : MapD :=
+      { top := { name := 0, src := .own { tag := 0, ops := [(.Iterator, .fn (.ret (.nest d fin)))] } } }
+    (toList (.map (m 15 .lst))).res = .ok (.lst [20, 21]) ∧
+    (toList (.map (m 16 .lst))).res = .err .tooNested ∧ (toList (.map (m 16 .lst))).trace.length = 16 ∧
+    (forLoop (.map (m 16 .lst))).res = .ok (.lst [20, 21]) ∧
+    (forLoop (.map (m 17 .lst))).res = .err .tooNested ∧ (forLoop (.map (m 17 .lst))).trace.length = 17 ∧
+    (toList (.map (m 1 .back))).res = .err .tooNested ∧ (toList (.map (m 1 .back))).trace.length = 16 ∧
+    (forLoop (.map (m 1 .back))).trace.length = 17 ∧
+    (toList (.map (m 2 .int))).res = .err .type := by
+  decide
 
 /-- the result of `@iterator` is used as an *iterable*: every iterable kind yields its elements
 (after exactly one `@iterator` call), a non-iterable result is a type error — in `for` as in the
@@ -647,7 +776,6 @@ public path -/
 theorem iterator_result_spec (m : MapD) (ti : Name) (v : RV)
     (hn : m.metaGet .Next = none) (hi : m.metaGet .Iterator = some (ti, .fn (.ret v))) :
     let ev : Ev := ⟨ti, .mk .Iterator, m.av, []⟩
-    forLoop (.map m) = iterateResult [ev] (.ret (v.toAV m.av)) ∧
     (v = .lst ∨ v = .tup ∨ v = .iter ∨ v = .gen → forLoop (.map m) = ⟨[ev], .ok (.lst [20, 21])⟩) ∧
     (v = .rng → forLoop (.map m) = ⟨[ev], .ok (.lst [0, 1])⟩) ∧
     (v = .innerIter →
@@ -655,14 +783,18 @@ theorem iterator_result_spec (m : MapD) (ti : Name) (v : RV)
     (v = .innerNext → (forLoop (.map m)).res = .ok (.lst [10, 11])) ∧
     ((∃ n, v = .int n) ∨ v = .null ∨ (∃ b, v = .bool b) → forLoop (.map m) = ⟨[ev], .err .type⟩) := by
   intro ev
-  have h0 : forLoop (.map m) = iterateResult [ev] (.ret (v.toAV m.av)) := by
-    simp [forLoop, hn, hi, invoke_fn, Beh.run, Beh.runAt, ev]
-  refine ⟨h0, ?_, ?_, ?_, ?_, ?_⟩
-  · rintro (h | h | h | h) <;> subst h <;> simp [h0, RV.toAV, iterateResult]
-  · intro h; subst h; simp [h0, RV.toAV, iterateResult]
-  · intro h; subst h; simp [h0, RV.toAV, iterateResult]
-  · intro h; subst h; simp [h0, RV.toAV, iterateResult]
-  · rintro (⟨n, h⟩ | h | ⟨b, h⟩) <;> subst h <;> simp [h0, RV.toAV, iterateResult]
+  have h0 : forLoop (.map m) =
+      iterWalk (nestStep m.av ev (v.toAV m.av)) iterateResult 16 (v.toAV m.av) [ev] := by
+    simp only [forLoop, hn, hi, invoke_fn, Beh.run, Beh.runAt, nestingLimit]
+    cases v <;> simp [ev]
+  refine ⟨?_, ?_, ?_, ?_, ?_⟩
+  · rintro (h | h | h | h) <;> subst h <;>
+      simp [h0, RV.toAV, iterWalk, nestStep, iterateResult, MapD.av]
+  · intro h; subst h; simp [h0, RV.toAV, iterWalk, nestStep, iterateResult, MapD.av]
+  · intro h; subst h; simp [h0, RV.toAV, iterWalk, nestStep, iterateResult, MapD.av]
+  · intro h; subst h; simp [h0, RV.toAV, iterWalk, nestStep, iterateResult, MapD.av]
+  · rintro (⟨n, h⟩ | h | ⟨b, h⟩) <;> subst h <;>
+      simp [h0, RV.toAV, iterWalk, nestStep, iterateResult, MapD.av]
 
 example : forLoop (.map { top := { name := 0, src := .own { tag := 0, ops := [(.Iterator, .fn (.ret .lst))] } } })
     = ⟨[⟨0, .mk .Iterator, .obj 0, []⟩], .ok (.lst [20, 21])⟩ := by decide
